@@ -584,6 +584,7 @@ def run(tier):
         obls, npaths = ppos_obligations(S)
         o2, p2 = stdnorm_obligations(S, (1, 2, 3) if tier == 'quick' else (1, 2, 3, 4, 5)); obls += o2; npaths += p2
         o3, p3 = lhs_obligations(S, [(1, 1), (2, 1), (3, 1), (2, 2)] if tier == 'quick' else [(1, 1), (2, 1), (3, 1), (4, 1), (2, 2), (3, 2), (2, 3)]); obls += o3; npaths += p3
+        o4, p4 = pareto_wrapper_obligations(S); obls += o4; npaths += p4
         library_contracts(r)
         pproof.discharge(r, obls, replay=replay_ppos(S), file=FILE, fn_of=lambda ob: ob.id.split('/')[1])
         r.functions += [dict(file='sutils.py', fn=f, trusted=t, nonterminating=[], cutloops=0, unrolled=0, terminating=0)
@@ -603,3 +604,57 @@ def run(tier):
     r.explanation = ('proved: c_paretofront contract (Engine C); ppos in (0,1), increasing, symmetric, formula, rejection of bad constants for every size (Engine P); standard_normal / lhs for enumerated small sizes with symbolic values; '
                      'bounded: float monitors of lhs, ppos, standard_normal, pareto_front wrapper, boxplot and violin summaries')
     return r.finish()
+
+
+# ------------------------------------------------------------------------------------------------ Engine P: the python wrapper of c_paretofront
+def pareto_wrapper_obligations(S):
+    """the real sutils.pareto_front on a symbolic data set (C- and Fortran-ordered, NaN allowed) with the compiled module replaced by a recorder:
+    the kernel is entered once with the orientation, the data row by row unchanged and a zeroed flag vector; its flags are returned"""
+    obls = []; npaths = 0
+    n, m = 3, 2
+    x = [[SymReal(z3.Real('d%d_%d' % (i, k)), z3.Bool('d%d_%d!nan' % (i, k))) for k in range(m)] for i in range(n)]
+    names = ['d%d_%d' % (i, k) for i in range(n) for k in range(m)]
+    eq = lambda a, b: z3.Or(z3.And(SymReal.lift(a).nan, SymReal.lift(b).nan), z3.And(z3.Not(SymReal.lift(a).nan), z3.Not(SymReal.lift(b).nan), SymReal.lift(a).val == SymReal.lift(b).val))
+
+    class Kernel:
+        def __init__(self):
+            self.calls = []
+
+        def pareto_front(self, orientation, data, isdominated):
+            d = np.asarray(data, dtype=object)
+            self.calls.append(dict(orientation=int(orientation), shape=d.shape, rows=[[d[i, k] for k in range(d.shape[1])] for i in range(d.shape[0])] if d.ndim == 2 else None,
+                                   contiguous=bool(np.asarray(data).flags['C_CONTIGUOUS']), flags0=[int(v) for v in isdominated], fdtype=np.asarray(isdominated).dtype))
+            isdominated[:] = [1, 0, 1][:len(isdominated)]
+            return 0
+
+    for orient in (1, -1):
+        for order in ('C', 'F'):
+            kern = Kernel()
+
+            def run():
+                kern.calls = []
+                a = np.empty((n, m), dtype=object)
+                for i in range(n):
+                    a[i, :] = x[i]
+                a = np.asfortranarray(a) if order == 'F' else a
+                return S.pareto_front(a.view(SA), orient), list(kern.calls)
+            saved = (S.np, S.c_hydrodiy_stat, S.has_c_module)
+            S.np = engp.NPProxy(); S.c_hydrodiy_stat = kern; S.has_c_module = lambda *a, **kw: True
+            try:
+                paths = engp.explore(run, base=[], allowed_exc=())
+            finally:
+                S.np, S.c_hydrodiy_stat, S.has_c_module = saved
+            npaths += len(paths)
+            for kp, pa in enumerate(paths):
+                out, calls = pa.result
+                hyp = list(pa.pc) + list(pa.axioms)
+                tag = 'sutils.py/pareto_front/orientation=%d,order=%s/path%d' % (orient, order, kp)
+                if len(calls) != 1:
+                    obls.append(pproof.PObligation(tag + '/one-kernel-call', 'post', 'the kernel is entered exactly once', hyp, z3.BoolVal(False), names)); continue
+                c = calls[0]
+                obls.append(pproof.PObligation(tag + '/orientation-buffers', 'post', 'the kernel receives the orientation unchanged, C-contiguous data of the same shape and a zeroed int32 flag vector of one flag per point', hyp,
+                                               z3.BoolVal(c['orientation'] == orient and c['shape'] == (n, m) and c['contiguous'] and c['flags0'] == [0] * n and c['fdtype'] == np.int32), names))
+                obls.append(pproof.PObligation(tag + '/data', 'post', 'the kernel receives the data set row by row unchanged (missing coordinates stay missing)', hyp,
+                                               z3.And(*[eq(c['rows'][i][k], x[i][k]) for i in range(n) for k in range(m)]) if c['rows'] is not None else z3.BoolVal(False), names))
+                obls.append(pproof.PObligation(tag + '/returns-kernel-flags', 'post', 'the flags written by the kernel are returned', hyp, z3.BoolVal([int(v) for v in out] == [1, 0, 1]), names))
+    return obls, npaths
